@@ -31,15 +31,16 @@ def build(variant):
         name = Req(str, **lazy)
         bio = Opt(str, lazy=True)                    # lazy in every variant
         age = Opt(int, **lazy)
-        mentor = Opt('Author', reverse='pupils')
+        mentor = Opt('Author', reverse='pupils', **lazy)            # reference attributes are lazy too in the lazy variant
         pupils = Set('Author', reverse='mentor', **setkw)
         books = Set('Book', **setkw)
+        passport = Opt('Passport')                     # its owner is required: deleting an author who has one is refused
 
     class Book(db.Entity):
         title = Req(str, **lazy)
         notes = Opt(str, lazy=True)
         year = Opt(int, **lazy)
-        author = Opt(Author)
+        author = Opt(Author, **lazy)
         tags = Set('Tag', **setkw)
         reviews = Set('Review', **setkw)
 
@@ -50,16 +51,21 @@ def build(variant):
         label = Req(str)
         books = Set(Book, **setkw)
 
+    class Passport(db.Entity):
+        code = Req(str)
+        author = Req(Author)
+
     class Review(db.Entity):
         text = Req(str, **lazy)
         stars = Opt(int)
-        book = Req(Book)
+        book = Req(Book, **lazy)
     db.generate_mapping(create_tables=True)
     if variant == 'tiny_batches': db.provider.max_params_count = 3          # batches of at most 3 objects: the batch-size boundary is exercised
     with orm.db_session:
         a = [Author(name='a%d' % i, bio='bio %d' % i if i % 2 else '', age=20 + i if i != 3 else None) for i in range(5)]
         orm.flush()
         a[1].mentor = a[0]; a[2].mentor = a[0]; a[3].mentor = a[1]; a[4].mentor = a[4]          # (a self reference)
+        Passport(code='pp1', author=a[1]); Passport(code='pp2', author=a[2])
         t = [Tag(label='t%d' % i) for i in range(4)]
         books = []
         for i in range(9):
@@ -73,6 +79,16 @@ def build(variant):
 
 
 def _by(objs, title): return next(b for b in objs if b.title == title)
+
+
+def _byname(objs, name): return next(a for a in objs if a.name == name)
+
+
+def _refused_delete(author):
+    """a modification that is refused half way (the author has a passport whose owner is required) and therefore must leave nothing behind"""
+    try: author.delete()
+    except core.ConstraintError: return ['refused']
+    return ['NOT refused']
 
 
 def nm(o): return None if o is None else getattr(o, 'name', None) or getattr(o, 'title', None) or getattr(o, 'label', None) or getattr(o, 'text', None)
@@ -93,6 +109,12 @@ PROGRAMS = {
     'iterate_then_count': lambda M, objs: ([(sorted(nm(b) for b in a.books), a.books.count(), len(a.books), a.books.is_empty(), sorted(nm(p) for p in a.pupils), a.pupils.count()) for a in objs['authors']],
                                            [(sorted(nm(t) for t in b.tags), b.tags.count(), sorted(r.text for r in b.reviews), b.reviews.count(), b.reviews.is_empty()) for b in objs['books']],
                                            [(sorted(nm(b) for b in t.books), t.books.count()) for t in objs['tags']]),
+    'after_refused_delete': lambda M, objs: (_refused_delete(_byname(objs['authors'], 'a1')),
+                                             [(a.name, sorted(nm(b) for b in a.books), a.books.count(), len(a.books), sorted(nm(p) for p in a.pupils), a.pupils.count(), a.pupils.is_empty(), nm(a.mentor))
+                                              for a in objs['authors']], [(b.title, nm(b.author)) for b in objs['books']]),
+    'after_refused_delete_observed_first': lambda M, objs: ([(a.books.count(), a.pupils.count(), sorted(nm(p) for p in a.pupils)) for a in objs['authors']], _refused_delete(_byname(objs['authors'], 'a1')),
+                                             [(a.name, sorted(nm(b) for b in a.books), a.books.count(), len(a.books), sorted(nm(p) for p in a.pupils), a.pupils.count(), a.pupils.is_empty(), nm(a.mentor))
+                                              for a in objs['authors']]),
     'lazy_attributes_only': lambda M, objs: ([(a.bio, a.name) for a in objs['authors']], [(b.notes, b.title, getattr(b, 'edition', '-')) for b in objs['books']]),
 }
 VARIANTS = ('default', 'lazy', 'no_batch', 'batch_at_once', 'tiny_batches')
@@ -122,11 +144,14 @@ def observe(variant, strategy, program):
     M = build(variant)
     with orm.db_session:
         objs = _load(M, strategy)
-        if strategy == 'reverse_order':
-            rev = {k: list(reversed(v)) for k, v in objs.items()}
-            r = PROGRAMS[program](M, rev)
-            return tuple(list(reversed(part)) for part in r)
-        return tuple(PROGRAMS[program](M, objs))
+        try:
+            if strategy == 'reverse_order':
+                rev = {k: list(reversed(v)) for k, v in objs.items()}
+                r = PROGRAMS[program](M, rev)
+                return tuple(list(reversed(part)) if len(part) != 1 else part for part in r)
+            return tuple(PROGRAMS[program](M, objs))
+        finally:
+            orm.rollback()
 
 
 def _configs(tier):
@@ -153,5 +178,5 @@ CONTRACTS = [
     Contract('same_observations', ['pony.orm.core:Set.load', 'pony.orm.core:Query.prefetch', 'pony.orm.core:Query._do_prefetch', 'pony.orm.core:Set.prefetch_load_all',
                                    'pony.orm.core:Entity._prefetch_load_all_', 'pony.orm.core:Entity._load_', 'pony.orm.core:EntityMeta._load_many_', 'pony.orm.core:Attribute.load'],
              _configs, _case, [('every_loading_strategy_observes_the_baseline_data', lambda cfg, i, path: path.outcome == 'ret' and path.value == [])], level='bounded',
-             bound='5 model variants x 5 loading strategies x 7 observation programs on one stored data set'),
+             bound='5 model variants x 5 loading strategies x 9 observation programs (two of them read after a refused delete) on one stored data set'),
 ]
